@@ -1,3 +1,4 @@
+import IpcModel.Inproc
 import IpcModel.Ledger.LP
 import IpcModel.Ideal
 import IpcModel.Lemmas.RefineRun
@@ -77,5 +78,13 @@ the queue is empty and no sender is left, in every receive mode, race or no race
 theorem C03_eof_confirmed (k : Timed.K) (m : Timed.Mode) (b race : Bool) (h : (Timed.recvFirstR k m b race).1 = .disconnected) :
     k.queue = [] ∧ k.peerAlive = false ∧ Gen.shape_eofConfirmed = true :=
   ⟨(Timed.disconnected_only_when_drained k m b race h).1, (Timed.disconnected_only_when_drained k m b race h).2, by decide⟩
+
+/-- **C03_inproc** — on the in-process transport (error arms regenerated from `src/platform/inprocess/mod.rs` and the `From`
+conversions): whichever receive flavour is used, the public answer is "disconnected" exactly when the channel's queue reported
+disconnection — which crossbeam does only for an empty queue with every sender gone — and never "empty" in that case. -/
+theorem C03_inproc (c : Gen.XCall) (x : Inproc.XB) (h : Inproc.possible c x = true) :
+    (Inproc.codeAnswer c x = .disconnected ↔ x = .disconnected) ∧ (x = .disconnected → Inproc.codeAnswer c x ≠ .empty) := by
+  refine ⟨Inproc.disconnected_iff c x h, ?_⟩
+  intro hx; rw [(Inproc.code_answers c x h).1, hx]; decide
 
 end C03
